@@ -53,8 +53,9 @@ def gen_frame(tier, seed):
     lo = lons(tier, seed)
     for la in lats(tier, seed):
         yield {'lat': la, 'lons': lo, 'kind': 'float'}
-    for kind in cfg.INTYPES[1:]:
+    for kind in cfg.INTYPES[1:] + cfg.NUMFORMS:
         yield {'lat': -23.67, 'lons': [133.88, -0.3, 0.15], 'kind': kind}
+        yield {'lat': -0.4, 'lons': [-0.3], 'kind': kind}
 
 
 def ev_frame(case, rec):
@@ -92,7 +93,7 @@ def ev_frame(case, rec):
                 rec.skip('input object could not be built (C08)')
                 continue
         for v in VECS:
-            st, x = rec.call(enu2xyz, lat_a, lon_a, v[0], v[1], v[2])
+            st, x = rec.call(enu2xyz, cfg.unwrap(lat_a), cfg.unwrap(lon_a), v[0], v[1], v[2])
             if st != 'ok':
                 rec.fail('enu2xyz raised', site='geodesy:enu2xyz', observed=x, case=one)
                 continue
@@ -142,7 +143,11 @@ def ev_vcv(case, rec):
         M = np.array(m, dtype=float)
         one = dict(case, mats=[m], cols=[])
         for name, f, g in (('cart2local', vcv_cart2local, vcv_local2cart), ('local2cart', vcv_local2cart, vcv_cart2local)):
-            st, out = rec.call(f, M.copy(), la, lo)
+            Min = M.copy()
+            st, out = rec.call(f, Min, la, lo)
+            if not np.array_equal(Min, M):
+                rec.fail('%s modified the matrix supplied by the caller' % name, site='statistics:vcv_' + name + ':argument', observed=Min,
+                         expected=m, case=one)
             if st != 'ok':
                 rec.fail('%s raised on a PSD 3x3 matrix' % name, site='statistics:vcv_' + name, observed=out, case=one)
                 continue
@@ -213,6 +218,10 @@ def ev_ell(case, rec):
         M = np.array(m, dtype=float)
         one = {'mats': [m]}
         st, r = rec.call(error_ellipse, M)
+        if not np.array_equal(M, np.array(m, dtype=float)):
+            rec.fail('error_ellipse modified the matrix supplied by the caller', site='statistics:error_ellipse:argument', observed=M, expected=m,
+                     case={'mats': [m]})
+            M = np.array(m, dtype=float)
         a, b, brg, w = ellipse_oracle(m)
         scale = max(abs(w[1]), 1e-300)
         if st != 'ok':
